@@ -122,6 +122,12 @@ def replay_search(prop, failure, tier):
         except Exception:
             out = {"error": (p.stdout[-1000:] + p.stderr[-1000:])}
         rec.update(out)
+        # probes that a recorded finding lists are not witnesses of a NEW violation
+        kfs0 = [k for k in load_known().get("findings", []) if k.get("property") == prop and k.get("probe")]
+        if out.get("failing_inputs") and kfs0:
+            out["failing_inputs"] = [x for x in out["failing_inputs"] if not any(re.search(k["probe"], x["id"]) for k in kfs0)]
+            rec["failing_inputs"] = out["failing_inputs"]
+            rec["failing_count"] = len(out["failing_inputs"])
         if not out.get("failing_inputs"):
             # nothing in the label's own family: sweep the property's families (an implicit obligation inside f undermines
             # every clause of f, so any probe of the property that the real code gets wrong is a witness)
